@@ -281,10 +281,8 @@ for (nm, fn, tier, tmo) in [('l6', 'ref_new_l6', 'quick', 3600), ('l7n', 'ref_ne
     ob('C04.case.' + nm, ['C04', 'C05', 'C13'], 'ska_ref/new', fn, tier=tier, functions=REFNEW, inst='u64', needs_parts=['ska_ref/common', 'split_kmer/common'], caps={'MCAP': 1, 'SCAP': 3, 'RCAP': 1, 'CCAP': 1},
        models=['needletail (in-memory records)', 'hashbrown', 'ndarray'], stubs=['core::str::from_utf8 -> unchecked (kani::stub)'], sym='one contig of %s bases in either case%s, strand mode' % (nm[1], ' with N' if 'n' in nm[2:] else ''),
        oracle='k-mer list = window specification with centres ascending and strand flags; stored reference is upper-case; contig name', bounds='k=5, ' + nm, timeout=tmo, mem_gb=20, mem_expect_gb=10)
-for (nm, fn) in [('5_1_5', 'ref_new_repeats_5_1_5'), ('5_1_6', 'ref_new_repeats_5_1_6'), ('6_0_6', 'ref_new_repeats_6_0_6')]:
-    ob('C04.ref.' + nm, ['C04', 'C13'], 'ska_ref/new', fn, tier='thorough', functions=REFNEW, inst='u64', needs_parts=['ska_ref/common', 'split_kmer/common'], caps={'MCAP': 1, 'SCAP': 4, 'RCAP': 1, 'CCAP': 1},
-       models=['needletail (in-memory records)', 'hashbrown', 'ndarray'], stubs=['core::str::from_utf8 -> unchecked (kani::stub)'], sym='three contigs (%s) of upper-case bases, single strand, repeat mask on' % nm,
-       oracle='k-mer list = windows of every contig in order; repeat_coors = exactly the absolute positions within h of the centre of a split k-mer that occurs more than once', bounds='k=5, 12 bases', timeout=7200, mem_gb=28, mem_expect_gb=14)
+# C04.ref (repeat coordinates of RefSka::new) is NOT registered: three contigs of 11-12 bases with repeat tracking did
+# not finish in 2 h (ref_new_repeats_* harnesses are kept in harness/ska_ref/new.rs for reference)
 
 # ------------------------------------------------------------------ C11 (sequential model: merge tree and pool initialisation)
 TREEF = ['src/merge_ska_dict.rs::build_and_merge', 'src/merge_ska_dict.rs::parallel_append', 'src/merge_ska_dict.rs::multi_append', MD + 'merge', MD + 'append']
@@ -321,3 +319,4 @@ ob('C11.tree.offset', ['C11'], 'merge_ska_dict/tree', 'parallel_append_depth2_of
    needs_parts=['merge_ska_dict/common', 'ska_dict/acc'], caps={'MCAP': 2, 'SCAP': 1, 'RCAP': 1, 'CCAP': 1}, models=['hashbrown', 'rayon (sequential join)'], stubs=['SkaDict::new -> dictionary provider (environment stub)'],
    sym='4 samples that are samples 2..6 of a 6-sample build, one k-mer of a 2-key universe and a symbolic base each; strand mode; recursion depth 2 with offset 2',
    oracle='every sample lands in its own column and name slot (the situation of merge depth >= 3, i.e. >= 70 files with >= 8 threads, reproduced at small size)', bounds='4 of 6 samples, depth 2, offset 2', timeout=3600, mem_gb=32, mem_expect_gb=12)
+
